@@ -35,7 +35,7 @@ from octave_mcp.core.emitter import emit
 from octave_mcp.core.file_ops import missing_parent_dirs, remove_created_dirs
 from octave_mcp.core.gbnf_compiler import GBNFCompiler
 from octave_mcp.core.hydrator import resolve_hermetic_standard
-from octave_mcp.core.lexer import LexerError, tokenize
+from octave_mcp.core.lexer import FENCE_PATTERN, LexerError, tokenize
 from octave_mcp.core.parser import ParserError, parse, parse_with_warnings
 from octave_mcp.core.repair import repair
 from octave_mcp.core.repair_log import LiteralZoneRepairLog
@@ -191,14 +191,17 @@ class WriteTool(BaseTool):
         for line in content.split("\n"):
             line_start = offset
             offset += len(line) + 1  # +1 for the newline separator
-            stripped = line.strip()
-            if stripped.startswith("```"):
-                run_len = len(stripped) - len(stripped.lstrip("`"))
+            # A fence line is what the lexer takes as one (FENCE_PATTERN): indented by spaces only, a
+            # backtick run, then text without a backtick. A run behind a tab, or followed by a later
+            # backtick, is zone content and must not end the protection.
+            fence_match = FENCE_PATTERN.match(line)
+            if fence_match:
+                run_len = len(fence_match.group(3))
                 if not in_fence:
                     in_fence = True
                     fence_start = line_start
                     fence_len = run_len
-                elif run_len == fence_len and not stripped[run_len:].strip():
+                elif run_len == fence_len and not (fence_match.group(4) or "").strip():
                     # Same rule as the lexer: only a clean backtick run of the opener's length
                     # closes the zone; a shorter run inside a longer fence is zone content.
                     in_fence = False
